@@ -65,7 +65,7 @@ def run(ctx) -> None:
     r10_5(ctx, classes)
     ctx.floor("wrapper_classes", 3)
     ctx.floor("maxsize_classes", 6)
-    ctx.floor("key_clauses", 6)
+    ctx.floor("key_cells", 24)
 
 
 class _Relabel:
@@ -122,78 +122,49 @@ def r10_1(ctx) -> None:
     p_args, p_kwds, p_typed = params[1], params[2], params[3]
     defaults = _param_defaults(node)
 
-    # (a) marker-separated keyword part, only when keywords are present
-    found = None
-    for sub in own_nodes(node):
-        if isinstance(sub, ast.Tuple) and len(sub.elts) == 3:
-            a, m, k = sub.elts
-            if isinstance(a, ast.Starred) and norm(a.value) == p_args and isinstance(m, ast.Name) \
-                    and isinstance(k, ast.Starred) and norm(k.value) == f"{p_kwds}.items()":
-                found = (sub, m.id)
+    # (a) the key table: from_call is abstractly evaluated for every call shape
+    #     args in {(), (A,), (A, B)} x kwds in {{}, {k: V}, {k: V, j: W}} x typed x "type(A) is a
+    #     fast type", over symbolic tuples, and compared with functools._make_key's rule
+    marker_default = defaults.get(params[5]) if len(params) > 5 else None
+    unique = isinstance(marker_default, ast.Call) and norm(marker_default.func) == "object" and not marker_default.args
     ctx.count("key_clauses")
-    if found is None:
-        ctx.fail("R10.1", u, "keyword key construction",
-                 "no key of the form (*args, <marker>, *kwds.items()) is built: positional and keyword "
-                 "patterns are not separated by a marker and/or keyword order is not preserved")
-    else:
-        tup, marker = found
-        mdef = defaults.get(marker)
-        unique = isinstance(mdef, ast.Call) and norm(mdef.func) == "object" and not mdef.args
-        if mdef is None:
-            g = u.module.symbols.get(marker)
-            unique = bool(g and g[0] == "assign" and isinstance(g[1], ast.Call) and norm(g[1].func) == "object")
-        ctx.check(unique, "R10.1", u, tup, "the keyword marker is a unique object() (cannot collide with an argument)")
-        guard = _guarding_test(node, tup)
-        ok = guard is not None and _truth_of(guard[0], p_kwds) is not None and \
-            (_truth_of(guard[0], p_kwds) == guard[1])
-        ctx.check(ok, "R10.1", u, tup, "the keyword part is added exactly when keyword arguments are present",
-                  witness=f"guard: {norm(guard[0]) if guard else None}")
+    ctx.check(unique or len(params) <= 5, "R10.1", u, marker_default if marker_default is not None else "from_call",
+              "the keyword marker is a unique object() (cannot collide with an argument)")
+    table = {}
+    for args in ((), ("A",), ("A", "B")):
+        for kwds in ((), (("k", "V"),), (("k", "V"), ("j", "W"))):
+            for typed in (False, True):
+                for fast in ((False, True) if len(args) == 1 else (False,)):
+                    ctx.count("key_cells")
+                    got = _eval_from_call(ctx, u, params, args, kwds, typed, fast)
+                    want = _make_key_spec(args, kwds, typed, fast)
+                    cell = (f"args={args} kwds={dict(kwds)} typed={typed}" +
+                            (f" type(A) {'is' if fast else 'is not'} a fast type" if len(args) == 1 else ""))
+                    table[cell] = str(sorted(map(str, got)))
+                    ctx.check(got == {want}, "R10.1", u, "from_call",
+                              f"[{cell}] the key separates positional from keyword arguments by the marker, keeps keyword "
+                              "order, appends the types of all positional and keyword values iff typed, and is the bare "
+                              "argument only for a single fast-typed positional without keywords when not typed",
+                              witness=f"evaluated {sorted(map(str, got))}; functools rule gives {want}")
+    ctx.tables["from_call key table"] = table
     # (b) call order
     ctx.count("key_clauses")
     sorts = [n for n in own_nodes(node) if isinstance(n, ast.Call) and norm(n.func) in ("sorted", "frozenset", "set")]
     ctx.check(not sorts and not facts["sorts_kwds"], "R10.1", u, sorts[0] if sorts else "from_call",
               "keyword items enter the key in call order, like the stdlib (no sorting / set)")
-    # (c) typed suffix: type(...) applied to every positional and to every keyword *value*
+    # (c) exact-type test against the stdlib's table of fast types
     ctx.count("key_clauses")
-    typed_nodes = []
-    typed_over = []
-    for n in own_nodes(node):
-        src = _type_of_each(n)
-        if src is not None:
-            typed_nodes.append(n)
-            typed_over.append(src)
-    has_pos = p_args in typed_over
-    has_kw = f"{p_kwds}.values()" in typed_over
-    ctx.check(has_pos and has_kw, "R10.1", u, "typed key suffix",
-              "typed=True appends the type of every positional and every keyword value",
-              witness=f"type() is applied over {typed_over}")
-    typed_guarded = all(_under_test(node, n, p_typed) for n in typed_nodes)
-    ctx.check(typed_guarded and bool(typed_nodes), "R10.1", u, "typed key suffix",
-              "the type suffix is added only when typed is set")
-    # (d) fast path
-    ctx.count("key_clauses")
-    fast_returns = [n for n in own_nodes(node) if isinstance(n, ast.Return) and isinstance(n.value, ast.Subscript)]
-    if not fast_returns:
-        ctx.ok("R10.1", u, "no unwrapped fast path (always a CallKey): distinguishes at least as finely as the stdlib")
-    for r in fast_returns:
-        guard = _guarding_test(node, r)
-        text = norm(guard[0]) if guard else ""
-        conds = guard[0].values if guard and isinstance(guard[0], ast.BoolOp) and isinstance(guard[0].op, ast.And) else ([guard[0]] if guard else [])
-        len_ok = any(isinstance(c, ast.Compare) and norm(c.left).startswith("len(") and isinstance(c.ops[0], ast.Eq)
-                     and norm(c.comparators[0]) == "1" for c in conds)
-        exact = [c for c in conds if isinstance(c, ast.Compare) and isinstance(c.ops[0], ast.In)
-                 and isinstance(c.left, ast.Call) and norm(c.left.func) == "type"]
-        ctx.check(len_ok and bool(exact) and guard is not None and guard[1], "R10.1", u, r,
-                  "the unwrapped fast path is taken only for a single argument whose exact type "
-                  "(type(x) in table, not isinstance) is a fast type", witness=f"guard: {text}")
-        not_typed = _in_else_of(node, r, p_typed)
-        ctx.check(not_typed, "R10.1", u, r, "the fast path is never taken when typed is set")
-        for c in exact:
-            table = c.comparators[0]
-            tdef = defaults.get(table.id) if isinstance(table, ast.Name) else table
-            got = sorted(norm(e) for e in tdef.elts) if isinstance(tdef, (ast.Tuple, ast.Set, ast.List)) else None
-            ctx.check(got == facts["fasttypes"], "R10.1", u, tdef if tdef is not None else c,
-                      f"fast-type table equals the stdlib's {facts['fasttypes']}", witness=f"table: {got}")
+    exact = [c for c in own_nodes(node) if isinstance(c, ast.Compare) and isinstance(c.ops[0], ast.In)
+             and isinstance(c.left, ast.Call) and norm(c.left.func) == "type"]
+    isinst = [c for c in own_nodes(node) if isinstance(c, ast.Call) and norm(c.func) == "isinstance"]
+    ctx.check(not isinst, "R10.1", u, isinst[0] if isinst else "from_call",
+              "the fast path tests the exact type (type(x) in table), never isinstance (bool / int subclasses are not fast)")
+    for c in exact:
+        tbl = c.comparators[0]
+        tdef = defaults.get(tbl.id) if isinstance(tbl, ast.Name) else tbl
+        got_t = sorted(norm(e) for e in tdef.elts) if isinstance(tdef, (ast.Tuple, ast.Set, ast.List)) else None
+        ctx.check(got_t == facts["fasttypes"], "R10.1", u, tdef if tdef is not None else c,
+                  f"fast-type table equals the stdlib's {facts['fasttypes']}", witness=f"table: {got_t}")
     # CallKey equality and hash
     ctx.count("key_clauses")
     info = ctx.pkg.cls("_lrucache.CallKey")
@@ -208,10 +179,186 @@ def r10_1(ctx) -> None:
         isinstance(n, ast.Call) and norm(n.func) == "hash" and n.args and norm(n.args[0]) == init.param_names()[1]
         for n in own_nodes(init.node))
     ctx.check(hash_ok, "R10.1", hs or "CallKey", "CallKey.__hash__", "the hash is the hash of the same value tuple")
-    ctx.count("key_clauses")
-    wraps = [n for n in own_nodes(node) if isinstance(n, ast.Return) and isinstance(n.value, ast.Call)
-             and norm(n.value.func) in ("cls", "CallKey")]
-    ctx.check(bool(wraps), "R10.1", u, "from_call", "every non-fast key is wrapped as CallKey(key)")
+
+
+class _T(tuple):
+    """an abstract *tuple value* (as opposed to a tagged atom)"""
+
+
+class _KeyOps:
+    def __init__(self, fast: bool):
+        self.fast = fast
+
+    @staticmethod
+    def seq(v):
+        if isinstance(v, _T):
+            return v
+        return UNKNOWN
+
+    def truth(self, v, env):
+        if isinstance(v, _T):
+            return len(v) > 0
+        if isinstance(v, tuple) and v[:1] == ("DICT",):
+            return len(v[1]) > 0
+        return UNKNOWN
+
+    def compare(self, op, left, right, env):
+        if op in ("In", "NotIn") and right == "FAST_TYPES" and isinstance(left, tuple) and left[:1] == ("type",):
+            fast = self.fast if left[1] == "A" else False
+            return fast if op == "In" else not fast
+        if op in ("Eq", "NotEq") and isinstance(left, int) and isinstance(right, int):
+            return (left == right) if op == "Eq" else (left != right)
+        if op in ("Lt", "LtE", "Gt", "GtE") and isinstance(left, int) and isinstance(right, int):
+            return {"Lt": left < right, "LtE": left <= right, "Gt": left > right, "GtE": left >= right}[op]
+        return UNKNOWN
+
+    def binop(self, op, left, right, env):
+        if op == "Add" and isinstance(left, _T) and isinstance(right, _T):
+            return _T(left + right)
+        return UNKNOWN
+
+    def attr(self, value, name, node, env):
+        if isinstance(value, tuple) and value[:1] == ("DICT",):
+            return ("dictmeth", value, name)
+        return UNKNOWN
+
+    def call(self, func, args, kwargs, node, env):
+        ev = AbsEval(self)
+        callee = ev.eval(node.func, env) if not isinstance(node.func, ast.Name) or node.func.id in env else None
+        if isinstance(callee, tuple) and callee[:1] == ("dictmeth",):
+            items = callee[1][1]
+            if callee[2] == "items":
+                return _T(_T((k, v)) for k, v in items)
+            if callee[2] == "values":
+                return _T(v for _k, v in items)
+            if callee[2] == "keys":
+                return _T(k for k, _v in items)
+            return UNKNOWN
+        if callee == "CLS" or func in ("CallKey",):
+            return ("CallKey", args[0]) if len(args) == 1 else UNKNOWN
+        if func == "type" and len(args) == 1:
+            return ("type", args[0])
+        if func == "len" and len(args) == 1 and isinstance(args[0], _T):
+            return len(args[0])
+        if func == "len" and len(args) == 1 and isinstance(args[0], tuple) and args[0][:1] == ("DICT",):
+            return len(args[0][1])
+        if func == "tuple":
+            if not args:
+                return _T()
+            return self.seq(args[0])
+        if func == "map" and len(node.args) == 2 and norm(node.args[0]) == "type" and isinstance(args[1], _T):
+            return _T(("type", x) for x in args[1])
+        if func == "cast" and len(args) == 2:
+            return args[1]
+        return UNKNOWN
+
+    def other(self, e, env, ev):
+        if isinstance(e, ast.Starred):
+            return ("*", ev.eval(e.value, env))
+        if isinstance(e, ast.Subscript) and isinstance(e.slice, ast.Constant) and isinstance(e.slice.value, int):
+            v = ev.eval(e.value, env)
+            if isinstance(v, _T) and -len(v) <= e.slice.value < len(v):
+                return v[e.slice.value]
+            return UNKNOWN
+        if isinstance(e, (ast.GeneratorExp, ast.ListComp)) and len(e.generators) == 1 and not e.generators[0].ifs:
+            g = e.generators[0]
+            src = ev.eval(g.iter, env)
+            if not isinstance(src, _T):
+                return UNKNOWN
+            out = []
+            for x in src:
+                env2 = dict(env)
+                _bind(g.target, x, env2)
+                out.append(ev.eval(e.elt, env2))
+            return _T(out)
+        return UNKNOWN
+
+    def augstore(self, node, env, ev):
+        s_ = node.ast
+        if isinstance(s_, ast.AugAssign) and isinstance(s_.target, ast.Name) and isinstance(s_.op, ast.Add):
+            cur = env.get(s_.target.id, UNKNOWN)
+            add = _flatten(ev.eval(s_.value, env))
+            env[s_.target.id] = _T(cur + add) if isinstance(cur, _T) and isinstance(add, _T) else UNKNOWN
+        elif isinstance(s_, ast.AugAssign) and isinstance(s_.target, ast.Name):
+            env[s_.target.id] = UNKNOWN
+
+
+def _bind(target, value, env) -> None:
+    if isinstance(target, ast.Name):
+        env[target.id] = value
+    elif isinstance(target, (ast.Tuple, ast.List)) and isinstance(value, tuple) and len(value) == len(target.elts):
+        for t, v in zip(target.elts, value):
+            _bind(t, v, env)
+
+
+def _flatten(v):
+    """a tuple display with starred parts -> _T"""
+    if isinstance(v, _T):
+        return v
+    if isinstance(v, tuple) and not (v and isinstance(v[0], str) and v[0] in ("type", "CallKey", "DICT", "dictmeth", "*")):
+        out = []
+        for x in v:
+            if isinstance(x, tuple) and x[:1] == ("*",):
+                if not isinstance(x[1], _T):
+                    return UNKNOWN
+                out.extend(x[1])
+            else:
+                out.append(_flatten(x) if isinstance(x, tuple) and not isinstance(x, _T) and not (x and isinstance(x[0], str)) else x)
+        return _T(out)
+    return v
+
+
+class _KeyEval(AbsEval):
+    def eval(self, e, env):
+        v = super().eval(e, env)
+        if isinstance(e, ast.Tuple):
+            return _flatten(v)
+        return v
+
+
+def _canon(v):
+    """structure-insensitive form of a key: nested pairs (k, v) are flattened"""
+    if isinstance(v, tuple) and v[:1] == ("CallKey",):
+        return ("CallKey", _canon(v[1]))
+    if isinstance(v, _T):
+        out = []
+        for x in v:
+            if isinstance(x, _T):
+                out.extend(_canon(x))
+            else:
+                out.append(x)
+        return tuple(out)
+    return v
+
+
+def _make_key_spec(args, kwds, typed, fast):
+    key = list(args)
+    if kwds:
+        key.append("MARK")
+        for k, v in kwds:
+            key += [k, v]
+    if typed:
+        key += [("type", a) for a in args]
+        if kwds:
+            key += [("type", v) for _k, v in kwds]
+    elif len(key) == 1 and fast:
+        return key[0]
+    return ("CallKey", tuple(key))
+
+
+def _eval_from_call(ctx, u, params, args, kwds, typed, fast):
+    ops = _KeyOps(fast)
+    m = absint.Machine(cfg_of(u), ops)
+    m.ev = _KeyEval(ops)
+    env = {params[0]: "CLS", params[1]: _T(args), params[2]: ("DICT", tuple(kwds)), params[3]: typed}
+    if len(params) > 4:
+        env[params[4]] = "FAST_TYPES"
+    if len(params) > 5:
+        env[params[5]] = "MARK"
+    out = set()
+    for oc in m.run(env):
+        out.add(_canon(oc.returned) if oc.terminal.kind == "exit" else ("raises", str(oc.raised)))
+    return out
 
 
 def _type_of_each(n: ast.AST) -> Optional[str]:
